@@ -149,6 +149,30 @@ func startWorker() (*workerProc, error) {
 	return &workerProc{cmd: cmd, in: in, out: bufio.NewReaderSize(op, 1<<20)}, nil
 }
 
+// readLine waits for one answer line; a worker that stays silent for 60 s is stuck in a loop
+func (w *workerProc) readLine() (string, error) {
+	type res struct {
+		s   string
+		err error
+	}
+	ch := make(chan res, 1)
+	go func() {
+		s, err := w.out.ReadString('\n')
+		ch <- res{s, err}
+	}()
+	select {
+	case r := <-ch:
+		return r.s, r.err
+	case <-time.After(3 * hangAfter):
+		_ = w.cmd.Process.Kill()
+		r := <-ch
+		_ = r
+		return "", errHang
+	}
+}
+
+var errHang = fmt.Errorf("worker silent")
+
 func (w *workerProc) stop() {
 	w.in.Close()
 	_ = w.cmd.Process.Kill()
@@ -180,9 +204,13 @@ func evalInProcess(dirs []string, mains []string) ([]inproc, error) {
 			res[i] = inproc{Staged: "crash"}
 			continue
 		}
-		line, err := w.out.ReadString('\n')
+		line, err := w.readLine()
 		line = strings.TrimRight(line, "\n")
 		switch {
+		case err == errHang:
+			res[i] = inproc{Staged: "hang", Op: "?"}
+			w.stop()
+			w = nil
 		case err != nil:
 			res[i] = inproc{ParsePanic: true}
 			w.stop()
@@ -193,8 +221,12 @@ func evalInProcess(dirs []string, mains []string) ([]inproc, error) {
 			res[i] = inproc{ParsePanic: true}
 		case strings.HasPrefix(line, "OP "):
 			res[i].Op = line[3:]
-			st, err := w.out.ReadString('\n')
-			if err != nil || !strings.HasPrefix(st, "ST ") {
+			st, err := w.readLine()
+			if err == errHang {
+				res[i].Staged = "hang"
+				w.stop()
+				w = nil
+			} else if err != nil || !strings.HasPrefix(st, "ST ") {
 				res[i].Staged = "crash"
 				w.stop()
 				w = nil
@@ -274,8 +306,19 @@ func writeFiles(dir string, files map[string]string) error {
 func runBinary(bin, dir string, args []string) obs {
 	o := runBinaryT(bin, dir, args, hangAfter)
 	if o.Hang {
-		// the machine may be busy: only a run that also exceeds 6x the bound when run again counts as a hang
-		o = runBinaryT(bin, dir, args, 6*hangAfter)
+		// the machine may be busy: a run counts as a hang only if it also exceeds 6x the bound when run
+		// again; after three confirmed hangs further time-outs are taken at face value
+		mu.Lock()
+		confirmed := hangsConfirmed
+		mu.Unlock()
+		if confirmed < 3 {
+			o = runBinaryT(bin, dir, args, 6*hangAfter)
+			if o.Hang {
+				mu.Lock()
+				hangsConfirmed++
+				mu.Unlock()
+			}
+		}
 	}
 	return o
 }
@@ -458,7 +501,6 @@ func run(repo, dir string, seed uint64, tier string) error {
 	// in-process stages, 8 workers each with its own child process
 	const nw = 8
 	var firstErr error
-	var mu sync.Mutex
 	parallel(nw, nw, func(w int) {
 		var dirs, mains []string
 		var idx []int
@@ -512,6 +554,7 @@ func run(repo, dir string, seed uint64, tier string) error {
 		u.j.obs[u.be] = o
 		mu.Unlock()
 	})
+	fmt.Fprintf(os.Stderr, "c04: %d cases, %d binary runs in %v\n", len(jobs), len(units), time.Since(t0).Round(time.Millisecond))
 	out.Stats["binary_runs"] = len(units)
 	out.Stats["binary_wall_ms"] = int(time.Since(t0).Milliseconds())
 
@@ -578,10 +621,12 @@ func run(repo, dir string, seed uint64, tier string) error {
 	}
 	for _, key := range gorder {
 		g := groups[key]
+		tm := time.Now()
 		f := minimise(bin, filepath.Join(dir, "min"), g.first, g.be, g.class)
 		f.Observed.(map[string]interface{})["instances"] = capList(g.instances, 24)
 		f.Observed.(map[string]interface{})["instance_count"] = len(g.instances)
 		out.Fail(f)
+		fmt.Fprintf(os.Stderr, "c04: minimised %s in %v\n", key, time.Since(tm).Round(time.Millisecond))
 	}
 	os.RemoveAll(root)
 	os.RemoveAll(filepath.Join(dir, "min"))
@@ -652,6 +697,8 @@ func minimise(bin, scratch string, j *job, be, class string) vl.OracleFail {
 	c := j.c
 	files := j.files
 	minimised := false
+	var lastObs obs
+	haveObs := false
 	if c.Pos != "cmdline" && c.Rule != "none" {
 		baseLines := map[string]map[string]int{}
 		for p, t := range c.BaseProg.Texts() {
@@ -687,7 +734,14 @@ func minimise(bin, scratch string, j *job, be, class string) vl.OracleFail {
 			if writeFiles(d, assemble(ls, drop)) != nil {
 				return false
 			}
-			return oracle(c.Valid, runBinary(bin, d, caseArgs(c, be))) == class
+			o := runBinary(bin, d, caseArgs(c, be))
+			if oracle(c.Valid, o) != class {
+				return false
+			}
+			mu.Lock()
+			lastObs, haveObs = o, true
+			mu.Unlock()
+			return true
 		}
 		dropped := map[lineRef]bool{}
 		with := func(extra []lineRef) map[lineRef]bool {
@@ -699,6 +753,29 @@ func minimise(bin, scratch string, j *job, be, class string) vl.OracleFail {
 				d[rf] = true
 			}
 			return d
+		}
+		// two cheap attempts first: drop everything the edit did not touch; the same but keep include lines
+		var nonInc []lineRef
+		for _, rf := range cand {
+			if !strings.HasPrefix(ls[rf.path][rf.idx], "include ") {
+				nonInc = append(nonInc, rf)
+			}
+		}
+		for _, attempt := range [][]lineRef{cand, nonInc} {
+			if test(with(attempt)) {
+				dropped = with(attempt)
+				break
+			}
+		}
+		var rest0 []lineRef
+		for _, rf := range cand {
+			if !dropped[rf] {
+				rest0 = append(rest0, rf)
+			}
+		}
+		cand = rest0
+		if class == "crash" || class == "hang" {
+			cand = nil // every further test costs a 1 GB stack or a 20 s wait
 		}
 		chunk := (len(cand) + 1) / 2
 		for len(cand) > 0 {
@@ -744,13 +821,31 @@ func minimise(bin, scratch string, j *job, be, class string) vl.OracleFail {
 			}
 		}
 		files = assemble(ls, dropped)
+		// files that ended up empty and that nothing includes any more
+		if class != "crash" && class != "hang" {
+			slim := map[string]string{}
+			for p, t := range files {
+				if strings.TrimSpace(t) != "" || p == c.Prog.Files[0].Path {
+					slim[p] = t
+				}
+			}
+			if len(slim) < len(files) {
+				d := filepath.Join(scratch, "slim-"+strings.ReplaceAll(c.Rule+class, "/", "_"))
+				if writeFiles(d, slim) == nil {
+					if o := runBinary(bin, d, caseArgs(c, be)); oracle(c.Valid, o) == class {
+						files, lastObs, haveObs = slim, o, true
+					}
+				}
+				os.RemoveAll(d)
+			}
+		}
 		minimised = true
 	}
 	args := caseArgs(c, be)
-	d := filepath.Join(scratch, "final-"+strings.ReplaceAll(c.Rule+class, "/", "_"))
-	_ = writeFiles(d, files)
-	o := runBinary(bin, d, args)
-	os.RemoveAll(d)
+	o := j.obs[be]
+	if minimised && haveObs {
+		o = lastObs
+	}
 	return vl.OracleFail{
 		Key:  failureKey(c.Rule, class, files, args),
 		What: fmt.Sprintf("rule %s (%s at %s, backend %s): %s", c.Rule, c.Variant, c.Pos, be, class),
@@ -762,6 +857,7 @@ func minimise(bin, scratch string, j *job, be, class string) vl.OracleFail {
 }
 
 var mu sync.Mutex
+var hangsConfirmed int
 
 func failureKey(rule, class string, files map[string]string, args []string) string {
 	var paths []string
